@@ -617,7 +617,14 @@ impl Ctx {
         if self.quick() {
             quick
         } else {
-            thorough
+            // the random stages of these properties are cheap per case: the thorough tier spends minutes, not seconds, on them
+            let scale = match self.prop.as_str() {
+                "C05" | "C08" | "C13" | "C14" | "C17" | "C20" => 8,
+                "C03" | "C04" | "C09" | "C18" | "C19" => 5,
+                "C07" | "C15" | "C16" => 2,
+                _ => 1,
+            };
+            thorough * scale
         }
     }
 
